@@ -6,6 +6,7 @@ mod c14;
 mod casex;
 mod c15;
 mod c16;
+mod c17;
 mod c18;
 mod mapwatch;
 mod ops;
